@@ -211,7 +211,9 @@ def _expected_outputs(op):
         if o.get("serialize_plot"):
             exact.append(o["serialize_plot"])
         stems = [os.path.splitext(os.path.basename(f))[0]
-                 for f in op["inputs"]]
+                 for f in op["inputs"] if f != o.get("ref")]
+        if o.get("merge"):
+            stems = ["merged_trajectory"]  # evo_traj --merge: one output
         if o.get("ref"):
             stems.append(os.path.splitext(os.path.basename(o["ref"]))[0])
         for ext, flag in ((".tum", "save_as_tum"), (".kitti",
@@ -245,6 +247,8 @@ def collision_paths(op):
     if op["kind"] == "cli_traj":
         stems = [os.path.splitext(os.path.basename(f))[0]
                  for f in op["inputs"] if f != o.get("ref")]
+        if o.get("merge"):
+            stems = ["merged_trajectory"]
         if o.get("ref"):
             stems.append(os.path.splitext(os.path.basename(o["ref"]))[0])
         dup = sorted({x for x in stems if stems.count(x) > 1})
@@ -282,7 +286,7 @@ def cli_argv(op):
                 "ref"):
         if o.get(key) and key not in via:
             argv += ["--" + key, o[key]]
-    for key in ("save_as_tum", "save_as_kitti", "align", "merge"):
+    for key in ("save_as_tum", "save_as_kitti", "align", "merge", "sync"):
         if o.get(key) and key not in via:
             argv.append("--" + key)
     argv += list(op.get("extra", ()))
@@ -453,6 +457,13 @@ class C17(Check):
                                         "save_table", "save_plot",
                                         "serialize_plot")):
                 o["save_as_tum"] = True
+            if rng.random() < 0.2:
+                o["merge"] = True
+            if o.get("ref") and o["ref"] not in inputs:
+                if rng.random() < 0.3:
+                    o["sync"] = True
+                if rng.random() < 0.3:
+                    o["align"] = True
             op.update(opts=o, inputs=inputs, plot_split=False)
         elif kind == "cli_res":
             o = {}
@@ -1085,6 +1096,8 @@ class C17(Check):
         if op["kind"] == "cli_traj" and P.endswith((".tum", ".kitti")):
             names = [f for f in op["inputs"] if f != o.get("ref")] + (
                 [o["ref"]] if o.get("ref") else [])
+            if o.get("merge") or o.get("align") or o.get("sync"):
+                return []  # exported data is not simply one of the inputs
             stem = os.path.splitext(P)[0]
             for f in names:
                 if os.path.splitext(os.path.basename(f))[0] == stem:
